@@ -430,3 +430,127 @@ func Grant(id int, slice int64) (who int, kind uint64) {
 func BatonTopLevelOnly() bool { return !childSeen }
 
 var childSeen bool
+
+// ---------------------------------------------------------------- simulated clock
+//
+// The library under test has no clock of its own on the pinned tree. If a
+// changed tree starts using time (a timeout around the entropy read, say), its
+// timers and sleeps run on this discrete-event clock: time only moves when
+// every client is blocked, and then jumps straight to the next event.
+
+// SimTimer is one pending event of the simulated clock.
+type SimTimer struct {
+	at      int64
+	seq     uint64
+	fire    func() // runs on the scheduler's side when the clock reaches at
+	stopped bool
+	fired   bool
+}
+
+var (
+	simNow    int64 // simulated nanoseconds since the start of the process
+	simSeq    uint64
+	simTimers []*SimTimer
+	simJumps  int64
+)
+
+//go:norace
+func SimNow() int64 { return simNow }
+
+// SimAdvanced reports how far the simulated clock has moved and in how many jumps.
+//
+//go:norace
+func SimAdvanced() (ns int64, jumps int64) { return simNow, simJumps }
+
+// AddTimer schedules fire to run when the simulated clock has advanced by d.
+//
+//go:norace
+func AddTimer(d int64, fire func()) *SimTimer {
+	if d < 0 {
+		d = 0
+	}
+	simSeq++
+	t := &SimTimer{at: simNow + d, seq: simSeq, fire: fire}
+	simTimers = append(simTimers, t)
+	return t
+}
+
+// StopTimer cancels t; it reports whether the timer was still pending.
+//
+//go:norace
+func StopTimer(t *SimTimer) bool {
+	if t == nil || t.fired || t.stopped {
+		return false
+	}
+	t.stopped = true
+	return true
+}
+
+// AdvanceClock is called by a scheduler when no client can run: it jumps to
+// the earliest pending event, fires it, and reports whether there was one.
+//
+//go:norace
+func AdvanceClock() bool {
+	best := -1
+	for i, t := range simTimers {
+		if t.stopped || t.fired {
+			continue
+		}
+		if best < 0 || t.at < simTimers[best].at || (t.at == simTimers[best].at && t.seq < simTimers[best].seq) {
+			best = i
+		}
+	}
+	// drop dead entries now and then
+	if len(simTimers) > 64 {
+		live := simTimers[:0]
+		var keep *SimTimer
+		if best >= 0 {
+			keep = simTimers[best]
+		}
+		for _, t := range simTimers {
+			if !t.stopped && !t.fired {
+				live = append(live, t)
+			}
+		}
+		simTimers = live
+		best = -1
+		for i, t := range simTimers {
+			if t == keep {
+				best = i
+			}
+		}
+	}
+	if best < 0 {
+		return false
+	}
+	t := simTimers[best]
+	if t.at > simNow {
+		simNow = t.at
+		simJumps++
+	}
+	t.fired = true
+	if t.fire != nil {
+		t.fire()
+	}
+	return true
+}
+
+// SleepSim blocks the calling client for d simulated nanoseconds.
+func SleepSim(d int64) {
+	if d <= 0 {
+		SyncPoint()
+		return
+	}
+	if !baton {
+		return // nobody to advance the clock: a sleep is a no-op outside the simulation
+	}
+	woke := false
+	AddTimer(d, func() { woke = true })
+	SyncPoint()
+	for !wokeLoad(&woke) {
+		Blocked()
+	}
+}
+
+//go:norace
+func wokeLoad(p *bool) bool { return *p }
